@@ -61,6 +61,7 @@ def run(facts, rep):
     d4_items(facts, rep)
     d5_overloads(facts, rep)
     d6_count_arithmetic(facts, rep)
+    d7_range_pool_ring(facts, rep)
 
 
 def divisible_edges(fn, ranges):
@@ -571,3 +572,147 @@ def d6_count_arithmetic(facts, rep):
     if m < 1:
         raise AnalysisBroken('blocked_range::do_split(split): split point computation not found')
     rep.floor('D6', 3, 'count / split point arithmetic')
+
+
+# ---------------------------------------------------------------------------------------------------------------
+# D7: the partitioners' range pool is a ring of MaxCapacity slots: its index steps are inverse cyclic permutations
+# ---------------------------------------------------------------------------------------------------------------
+def _eval_int(fn, x, env):
+    """value of an integer expression with the ring index bound to a concrete slot number (C++ semantics after integral
+    promotion to int: % and / truncate towards zero).  None = not evaluable."""
+    c = fn.cv(x)
+    if c is not None:
+        return c
+    x = fn.strip(x)
+    n = fn.n(x)
+    c = fn.cv(x)
+    if c is not None:
+        return c
+    k = n.get('k')
+    if k in ('cast', 'rd', 'paren'):
+        return _eval_int(fn, n['sub'], env)
+    if k == 'member' and n.get('n') in env:
+        return env[n['n']]
+    if k == 'binop':
+        a = _eval_int(fn, n['l'], env)
+        b = _eval_int(fn, n['r'], env)
+        if a is None or b is None:
+            return None
+        op = n['op']
+        if op == '+':
+            return a + b
+        if op == '-':
+            return a - b
+        if op == '*':
+            return a * b
+        if op == '&':
+            return a & b
+        if op in ('%', '/'):
+            if b == 0:
+                return None
+            q = abs(a) // abs(b)
+            if (a < 0) != (b < 0):
+                q = -q
+            return q if op == '/' else a - q * b
+        if op == '<<':
+            return a << b
+        if op == '>>':
+            return a >> b
+        if op in ('==', '!=', '<', '<=', '>', '>='):
+            return int({'==': a == b, '!=': a != b, '<': a < b, '<=': a <= b, '>': a > b, '>=': a >= b}[op])
+    if k == 'cond':
+        c0 = _eval_int(fn, n['c'], env)
+        if c0 is None:
+            return None
+        return _eval_int(fn, n['l'] if c0 else n['r'], env)
+    return None
+
+
+def ring_steps(facts, rep, clause, cfgname):
+    n = 0
+    per_class = {}
+    for fn in facts.fns.values():
+        if not fn.p.startswith(D1 + 'range_vector::'):
+            continue
+        for pos, sx, l, r in assignments(fn):
+            ln_ = fn.n(fn.strip(l))
+            if ln_.get('k') != 'member' or ln_.get('n') not in ('my_head', 'my_tail'):
+                continue
+            if not any(fn.nodes[y].get('k') == 'member' and fn.nodes[y].get('n') == ln_['n'] for y in fn.subtree(r)):
+                continue              # an initialisation, not a step
+            per_class.setdefault(fn.q.rsplit('::', 1)[0], []).append((fn, ln_['n'], r, fn.n(sx).get('ln')))
+    for cls, steps in sorted(per_class.items()):
+        # the capacity of this instantiation: the template argument, read off the modulus / mask constant of the steps is not
+        # trusted - it is taken from the class's static capacity through the size of the pool (MaxCapacity is a template value
+        # parameter: every use folds to a constant)
+        # the capacity of this instantiation: the array length of the pool member (aligned_space<T, MaxCapacity>)
+        import re
+        cap = None
+        for g in facts.fns.values():
+            if g.q.rsplit('::', 1)[0] != cls:
+                continue
+            for nd in g.nodes:
+                if nd and nd.get('k') == 'member' and nd.get('n') == 'my_pool':
+                    m = re.search(r',\s*(\d+)>\s*$', nd.get('ty') or '')
+                    if m:
+                        cap = int(m.group(1))
+            if cap is not None:
+                break
+        if cap is None:
+            raise AnalysisBroken('range_vector capacity not found for %s' % cls)
+        fwd, bwd = [], []
+        seen = set()
+        for fn, idx, r, ln in steps:
+            if (idx, ln) in seen:
+                continue
+            seen.add((idx, ln))
+            img = []
+            for v in range(cap):
+                val = _eval_int(fn, r, {idx: v})
+                img.append(None if val is None else val & 0xFF)      # stored into an unsigned char
+            if any(v is None for v in img):
+                raise AnalysisBroken('range_vector index step at line %s is not evaluable' % ln)
+            in_range = all(0 <= v < cap for v in img)
+            orbit, cur = 0, 0
+            for _ in range(cap):
+                cur = img[cur] if 0 <= cur < cap else -1
+                orbit += 1
+                if cur == 0 or cur < 0:
+                    break
+            cyclic = in_range and sorted(img) == list(range(cap)) and orbit == cap and cur == 0
+            n += 1
+            rep.ob(clause, 'K14', fn, 'range pool (capacity %d, %s): the %s step at line %s is a cyclic permutation of the slots'
+                   % (cap, cfgname, idx, ln), cyclic,
+                   'slot -> next slot is %s: the pool overwrites live sub-ranges or reads slots outside the pool (elements are dropped, '
+                   'visited twice, or a garbage range reaches the body)' % dict(enumerate(img)), ln=ln, key_extra='ring|%s|%d|%s|%s' % (cfgname, cap, idx, ln))
+            if cyclic:
+                (fwd if img[0] == 1 % cap else bwd).append((idx, img, ln))
+        for idx, b_img, bln in bwd:
+            for idx2, f_img, fln in fwd:
+                if idx2 != idx:
+                    continue
+                ok = all(b_img[f_img[v]] == v for v in range(cap))
+                rep.ob(clause, 'K14', steps[0][0], 'range pool (capacity %d, %s): %s pop undoes %s push' % (cap, cfgname, idx, idx), ok,
+                       'the step at line %s is not the inverse of the step at line %s' % (bln, fln), key_extra='ringinv|%s|%d|%s' % (cfgname, cap, idx))
+    return n
+
+
+def d7_range_pool_ring(facts, rep, clause='D7'):
+    """The range pool of auto / affinity partitioner is a ring buffer of MaxCapacity sub-ranges indexed by unsigned char
+    my_head / my_tail.  Every sub-range put into it must come out exactly once: the index steps (head forward on split, head
+    backward on pop_back, tail forward on pop_front) must be cyclic permutations of [0, MaxCapacity), pop_back the inverse of the
+    push step.  Decided by evaluating each step expression on every slot number (a finite domain; C++ promotion rules: an
+    unsigned char minus one is the int -1, and -1 % 8 is -1), for the default capacity and - because the capacity is a
+    documented user knob (__TBB_RANGE_POOL_CAPACITY) - for a capacity that is not a power of two."""
+    n = ring_steps(facts, rep, clause, 'default capacity')
+    if getattr(facts, 'config', '') == 'release11':
+        from engine import runner
+        wd = runner.Workdir()
+        try:
+            f6 = runner.extract(UNITS, 'pool6', wd)
+            n += ring_steps(f6, rep, clause, '__TBB_RANGE_POOL_CAPACITY=6')
+        finally:
+            wd.cleanup()
+    if n < 3:
+        raise AnalysisBroken('range_vector index steps not found (%d)' % n)
+    rep.floor(clause, 3, 'range pool ring steps')
